@@ -847,4 +847,291 @@ theorem createAt_good {env : Env} (hinj : HashInj env) {st : Store} (hb : BlobsO
           have hmo : CanonM mo := hc name mo (readableAt_eq_some.mp hold)
           exact g01.trans (Good.ofBlobStep (removeLayers_step env mo.all g01.canon hmo) g01.blobsOk g01.canon _)
 
+/-- the manifest names an operation may write, after `getExistingName` -/
+def targets (op : Op) (ch : Choice) : List Name :=
+  match op with
+  | .create r => [getExistingName ch.ord1 r.name]
+  | .copy _ d => [getExistingName ch.ord2 d]
+  | .delete n => [getExistingName ch.ord1 n]
+  | .plant _ d => [d]
+  | .corrupt n => [n]
+  | _ => []
+
+/-! ## manifests are only ever changed at the target name (no guard needed) -/
+
+theorem layerRemove_mans (st : Store) (d : Digest) : (layerRemove st d).mans = st.mans := by
+  unfold layerRemove; split <;> rfl
+
+theorem removeLayers_mans (ls : List Layer) (st : Store) : (removeLayers st ls).mans = st.mans := by
+  induction ls generalizing st with
+  | nil => rfl
+  | cons l t ih =>
+    unfold removeLayers
+    simp only [List.foldl]
+    exact (ih (layerRemove st l.digest)).trans (layerRemove_mans st l.digest)
+
+theorem replaceLayer_mans (env : Env) (st : Store) (ls : List Layer) (media : Media) (c : Bytes) :
+    (replaceLayer env st ls media c).1.mans = st.mans := by
+  unfold replaceLayer newLayer
+  simp only
+  rw [putBlob_mans, removeLayers_mans]
+
+theorem stepTemplate_mans (env : Env) (st : Store) (ls : List Layer) (t : Option (Bytes × Bool)) :
+    (stepTemplate env st ls t).1.mans = st.mans := by
+  cases t with
+  | none => rfl
+  | some tb =>
+    obtain ⟨t, ok⟩ := tb
+    cases ok with
+    | false => simp only [stepTemplate, Bool.false_eq_true, if_false]; exact removeLayers_mans _ _
+    | true => simp only [stepTemplate, if_true]; exact replaceLayer_mans _ _ _ _ _
+
+theorem stepSystem_mans (env : Env) (st : Store) (ls : List Layer) (s : Option Bytes) :
+    (stepSystem env st ls s).1.mans = st.mans := by
+  cases s with
+  | none => rfl
+  | some s => exact replaceLayer_mans _ _ _ _ _
+
+theorem stepParams_mans (env : Env) (st : Store) (ls : List Layer) (p : List (String × String)) :
+    (stepParams env st ls p).1.mans = st.mans := by
+  unfold stepParams
+  split
+  · rfl
+  · rfl
+  · exact replaceLayer_mans _ _ _ _ _
+
+theorem createModel_mans (env : Env) (st : Store) (name : Name) (base : List (Layer × Option Meta))
+    (r : CreateReq) :
+    (createModel env st name base r).1.mans = st.mans ∨
+    ∃ m, (createModel env st name base r).1.mans = aset st.mans name (.readable m) := by
+  unfold createModel
+  simp only
+  have e1 := stepTemplate_mans env st (base.map (·.1)) r.template
+  cases h1 : stepTemplate env st (base.map (·.1)) r.template with
+  | mk st1 o1 =>
+    rw [h1] at e1; simp only at e1
+    cases o1 with
+    | none => exact Or.inl e1
+    | some l1 =>
+      simp only
+      have e2 := stepSystem_mans env st1 l1 r.system
+      cases h2 : stepSystem env st1 l1 r.system with
+      | mk st2 l2 =>
+        rw [h2] at e2; simp only at e2
+        have e3 := stepParams_mans env st2 l2 r.params
+        cases h3 : stepParams env st2 l2 r.params with
+        | mk st3 o3 =>
+          rw [h3] at e3; simp only at e3
+          cases o3 with
+          | none => exact Or.inl (e3.trans (e2.trans e1))
+          | some l3 =>
+            simp only
+            refine Or.inr ⟨⟨(newLayer env st3 (configJSON (base.filterMap (·.2)) (l3.map (·.digest))) .config).2, l3⟩, ?_⟩
+            simp only [setManifest, newLayer, putBlob_mans]
+            rw [e3, e2, e1]
+
+theorem createAt_mans (env : Env) (st : Store) (r : CreateReq) (name : Name) (frev : Bool) :
+    (createAt env st r name frev).1.mans = st.mans ∨
+    ∃ m, (createAt env st r name frev).1.mans = aset st.mans name (.readable m) := by
+  unfold createAt
+  simp only
+  cases hbl : baseLayers env st r frev with
+  | mk ob ev =>
+    cases ob with
+    | none => exact Or.inl rfl
+    | some base =>
+      simp only
+      have h := createModel_mans env st name base r
+      cases hcm : createModel env st name base r with
+      | mk st1 o =>
+        rw [hcm] at h; simp only at h
+        cases o with
+        | some err => exact h
+        | none =>
+          simp only
+          cases st.readableAt name with
+          | none => exact h
+          | some mo =>
+            simp only
+            rw [removeLayers_mans]
+            exact h
+
+/-- the manifest of any name other than the (resolved) target is the same file after the operation -/
+theorem step_man_frame (env : Env) (st : Store) (op : Op) (ch : Choice) (n : Name)
+    (hn : n ∉ targets op ch) : (step env st op ch).1.man n = st.man n := by
+  cases op with
+  | upload d c =>
+    simp only [step, upload]
+    split
+    · rfl
+    · split <;> exact man_congr (putBlob_mans env st c) n
+  | create r =>
+    simp only [step]
+    simp only [targets, List.mem_singleton] at hn
+    rcases createAt_mans env st r (getExistingName ch.ord1 r.name) ch.frev with h | ⟨m, h⟩
+    · exact man_congr h n
+    · unfold Store.man; rw [h, aget_aset]; simp [hn]
+  | copy s d =>
+    simp only [step, copyAt]
+    simp only [targets, List.mem_singleton] at hn
+    split
+    · rfl
+    · split
+      · rfl
+      · rw [setManifest_man]; simp [hn]
+  | delete t =>
+    simp only [step, deleteAt]
+    simp only [targets, List.mem_singleton] at hn
+    split
+    · rfl
+    · rfl
+    · rw [man_congr (removeLayers_mans _ _), delManifest_man]; simp [hn]
+  | prune =>
+    simp only [step, pruneStartup]
+    split <;> rfl
+  | plant s d =>
+    simp only [step]
+    simp only [targets, List.mem_singleton] at hn
+    split
+    · rw [setManifest_man]; simp [hn]
+    · rfl
+  | corrupt t =>
+    simp only [step]
+    simp only [targets, List.mem_singleton] at hn
+    split
+    · rw [setManifest_man]; simp [hn]
+    · rfl
+
+
+/-! ## getExistingName and letter case -/
+
+theorem foldEq_iff (a b : String) : foldEq a b = true ↔ lower a = lower b := by
+  unfold foldEq; exact beq_iff_eq
+
+/-- one part of the fold of `getExistingName` -/
+def resolvePart (f : Name → String) (ord : List Name) (x : String) : String :=
+  ord.foldl (fun cur e => if foldEq (f e) cur then f e else cur) x
+
+theorem getExistingName_parts (ord : List Name) (n : Name) :
+    (getExistingName ord n).host = resolvePart (·.host) ord n.host ∧
+    (getExistingName ord n).ns = resolvePart (·.ns) ord n.ns ∧
+    (getExistingName ord n).model = resolvePart (·.model) ord n.model ∧
+    (getExistingName ord n).tag = resolvePart (·.tag) ord n.tag := by
+  induction ord generalizing n with
+  | nil => exact ⟨rfl, rfl, rfl, rfl⟩
+  | cons e t ih =>
+    have := ih (resolve1 n e)
+    simp only [getExistingName, resolvePart, List.foldl] at this ⊢
+    exact this
+
+theorem resolvePart_spec (f : Name → String) (ord : List Name) (x : String) :
+    lower (resolvePart f ord x) = lower x ∧
+    ((∃ e ∈ ord, resolvePart f ord x = f e) ∨
+     (resolvePart f ord x = x ∧ ∀ e ∈ ord, lower (f e) ≠ lower x)) := by
+  induction ord generalizing x with
+  | nil => exact ⟨rfl, Or.inr ⟨rfl, by simp⟩⟩
+  | cons e t ih =>
+    simp only [resolvePart, List.foldl]
+    by_cases h : foldEq (f e) x = true
+    · simp only [h, if_true]
+      have hl := (foldEq_iff _ _).mp h
+      obtain ⟨h1, h2⟩ := ih (f e)
+      simp only [resolvePart] at h1 h2
+      refine ⟨h1.trans hl, Or.inl ?_⟩
+      rcases h2 with ⟨e', he', h2⟩ | ⟨h2, _⟩
+      · exact ⟨e', by simp [he'], h2⟩
+      · exact ⟨e, by simp, h2⟩
+    · simp only [h]
+      have hl : lower (f e) ≠ lower x := fun he => h ((foldEq_iff _ _).mpr he)
+      obtain ⟨h1, h2⟩ := ih x
+      simp only [resolvePart] at h1 h2
+      refine ⟨h1, ?_⟩
+      rcases h2 with ⟨e', he', h2⟩ | ⟨h2, h3⟩
+      · exact Or.inl ⟨e', by simp [he'], h2⟩
+      · refine Or.inr ⟨h2, ?_⟩
+        intro e' he'
+        simp only [List.mem_cons] at he'
+        rcases he' with rfl | he'
+        · exact hl
+        · exact h3 e' he'
+
+/-- a set of names spells part `f` consistently -/
+def PartOk (f : Name → String) (S : Name → Prop) : Prop :=
+  ∀ a b, S a → S b → lower (f a) = lower (f b) → f a = f b
+
+/-- under consistent spelling the resolved part is THE existing spelling (whatever the order) -/
+theorem resolvePart_canonical (f : Name → String) (S : Name → Prop) (hS : PartOk f S) (ord : List Name)
+    (hord : ∀ e, e ∈ ord ↔ S e) (x : String) (e : Name) (he : S e)
+    (hl : lower (f e) = lower (resolvePart f ord x)) : f e = resolvePart f ord x := by
+  obtain ⟨h1, h2⟩ := resolvePart_spec f ord x
+  rcases h2 with ⟨e', he', h2⟩ | ⟨_, h3⟩
+  · rw [h2] at hl ⊢
+    exact hS e e' he ((hord e').mp he') hl
+  · exact absurd (hl.trans h1) (h3 e ((hord e).mpr he))
+
+def MixOk (S : Name → Prop) : Prop :=
+  PartOk (·.host) S ∧ PartOk (·.ns) S ∧ PartOk (·.model) S ∧ PartOk (·.tag) S
+
+/-- adding a name produced by `getExistingName` keeps the spelling consistent -/
+theorem MixOk.insert_resolved {S : Name → Prop} (h : MixOk S) (ord : List Name) (hord : ∀ e, e ∈ ord ↔ S e)
+    (n : Name) : MixOk (fun a => S a ∨ a = getExistingName ord n) := by
+  obtain ⟨p1, p2, p3, p4⟩ := getExistingName_parts ord n
+  have key : ∀ (f : Name → String), PartOk f S → f (getExistingName ord n) = resolvePart f ord (f n) →
+      PartOk f (fun a => S a ∨ a = getExistingName ord n) := by
+    intro f hf hp a b ha hb hl
+    rcases ha with ha | rfl <;> rcases hb with hb | rfl
+    · exact hf a b ha hb hl
+    · rw [hp] at hl ⊢
+      exact resolvePart_canonical f S hf ord hord _ a ha hl
+    · rw [hp] at hl ⊢
+      exact (resolvePart_canonical f S hf ord hord _ b hb hl.symm).symm
+    · rfl
+  exact ⟨key _ h.1 p1, key _ h.2.1 p2, key _ h.2.2.1 p3, key _ h.2.2.2 p4⟩
+
+theorem MixOk.mono {S S' : Name → Prop} (h : MixOk S) (hs : ∀ a, S' a → S a) : MixOk S' :=
+  ⟨fun a b ha hb => h.1 a b (hs a ha) (hs b hb), fun a b ha hb => h.2.1 a b (hs a ha) (hs b hb),
+   fun a b ha hb => h.2.2.1 a b (hs a ha) (hs b hb), fun a b ha hb => h.2.2.2 a b (hs a ha) (hs b hb)⟩
+
+/-- the names `Manifests(true)` returns -/
+def Readable (st : Store) (a : Name) : Prop := ∃ m, st.man a = some (.readable m)
+
+theorem mem_readableNames {st : Store} {a : Name} : a ∈ st.readableNames ↔ Readable st a := by
+  unfold Store.readableNames Readable
+  simp only [List.mem_filter]
+  constructor
+  · rintro ⟨_, h⟩
+    cases hr : st.readableAt a with
+    | none => rw [hr] at h; cases h
+    | some m => exact ⟨m, readableAt_eq_some.mp hr⟩
+  · rintro ⟨m, hm⟩
+    exact ⟨mem_names_iff.mpr (by rw [hm]; rfl), by rw [readableAt_eq_some.mpr hm]; rfl⟩
+
+/-- no two readable manifests spell a fold-equal part differently -/
+def NoMixed (st : Store) : Prop := MixOk (Readable st)
+
+def Name.equalFold (a b : Name) : Bool :=
+  foldEq a.host b.host && foldEq a.ns b.ns && foldEq a.model b.model && foldEq a.tag b.tag
+
+/-- no two readable (hence no two listed) models differ only by letter case -/
+def NoTwins (st : Store) : Prop := ∀ a b, Readable st a → Readable st b → a.equalFold b = true → a = b
+
+theorem NoMixed.noTwins {st : Store} (h : NoMixed st) : NoTwins st := by
+  intro a b ha hb he
+  simp only [Name.equalFold, Bool.and_eq_true, foldEq_iff] at he
+  obtain ⟨⟨⟨e1, e2⟩, e3⟩, e4⟩ := he
+  have h1 := h.1 a b ha hb e1
+  have h2 := h.2.1 a b ha hb e2
+  have h3 := h.2.2.1 a b ha hb e3
+  have h4 := h.2.2.2 a b ha hb e4
+  cases a; cases b; simp_all
+
+/-- API operations (everything except the injected legacy manifest) -/
+def ApiOp : Op → Prop
+  | .plant _ _ => False
+  | _ => True
+
+/-- the iteration orders are orders of the map `Manifests(true)` returned -/
+def Covers (st : Store) (ch : Choice) : Prop :=
+  (∀ e, e ∈ ch.ord1 ↔ Readable st e) ∧ (∀ e, e ∈ ch.ord2 ↔ Readable st e)
+
 end OllamaVerif.Store
